@@ -65,16 +65,21 @@ INVARIANT C06_NoLeak
 """
 
 
-def pair_model(ctx: Ctx, thorough, extra=()):
+def pair_model(ctx: Ctx, thorough, extra=(), atomic=True):
     import json
     known = [k for k in json.load(open(os.path.join(VERIF, "known_findings.json")))["findings"] if k["property"] == "C05" and k["status"] == "open"]
     ks = ", ".join([f'<<"{k["signature"]["role"]}", {k["signature"]["event"]}, {k["signature"]["state"]}>>' for k in known]
                    + [f'<<"{a}", {b}, {c}>>' for a, b, c in extra])
     q = lambda xs: ", ".join(f'"{x}"' for x in xs)  # noqa: E731
     with open(os.path.join(ctx.work, "MC_Pair.tla"), "w") as f:
-        f.write(PAIR_MODULE.format(rops=q(["release", "abort", "echo"]), aops=q(["abort", "release"]), known=ks))
+        f.write(PAIR_MODULE.format(rops=q(["release", "abort", "echo"]), aops=q(["abort", "release"]), known=ks).replace("====\n", "MCNonAtomic == FALSE\n====\n"))
     with open(os.path.join(ctx.work, "MC_Pair.cfg"), "w") as f:
-        f.write(PAIR_CFG.format(maxtick=1))
+        cfg = PAIR_CFG.format(maxtick=1)
+        if not atomic:
+            # abort() and the reactor's release branch in two steps each (no lock in the code): only the one-outcome invariants
+            cfg = cfg.replace("          HandlerAbort <- MCHandlerAbort\n", "          HandlerAbort <- MCHandlerAbort\n          AtomicOutcome <- MCNonAtomic\n")
+            cfg = cfg.replace("INVARIANT C05_DefinedEventsOnly\n", "").replace("INVARIANT C06_Agreement\n", "").replace("INVARIANT C06_NoLeak\n", "")
+        f.write(cfg)
     r = must_ok(run_tlc("MC_Pair", "MC_Pair.cfg", workdir=ctx.work, spec_dir=ctx.work, workers=16, timeout=2400))
     ctx.add_tlc(r)
     return r
